@@ -66,6 +66,14 @@ def evaluate(case):
         for c in sorted(case["obj"], key=lambda c: (c["a"], c["v"])):
             for n in sorted(c["imgs"], reverse=True):
                 m.add(conc.vars[c["v"]], conc.arch[c["a"]], objs[n])
+        if conc.rot % 3 == 0:
+            # an image withdrawn again: the emptied (variant, arch) set holds nothing to write
+            tmp = Image(m)
+            for k, v in conc.fields("p2", pool["p2"]).items():
+                setattr(tmp, k, v)
+            tmp.path, tmp.subvariant = "withdrawn.iso", "Withdrawn"
+            m.add("Withdrawn", conc.arch["a1"], tmp)
+            m.images["Withdrawn"][conc.arch["a1"]].remove(tmp)
         text = m.dumps()
     except Exception as exc:
         if not case.get("valid", True) and isinstance(exc, (ValueError, TypeError)):
@@ -129,6 +137,25 @@ def evaluate(case):
             fails.append("%s: writing the re-read manifest does not reproduce the file byte for byte" % what)
     except Exception as exc:
         fails.append("%s: re-read manifest cannot be written: %s: %s" % (what, type(exc).__name__, exc))
+    if not fails and case.get("valid", True):
+        # an already-written manifest is edited and written again: the new values must be in the file
+        first = sorted(case["obj"], key=lambda c: (c["v"], c["a"]))[0]
+        n = sorted(first["imgs"])[0]
+        for name, man in (("already-written", m), ("re-read", m2)):
+            cell = man.images[conc.vars[first["v"]]][conc.arch[first["a"]]]
+            img = [i for i in cell if i.path == conc.fields(n, pool[n])["path"]][0]
+            img.mtime += 1000
+            img.bootable = not img.bootable
+            img.checksums = dict(img.checksums, sha1="f" * 40)
+            try:
+                recs = json.loads(man.dumps())["payload"]["images"][conc.vars[first["v"]]][conc.arch[first["a"]]]
+            except Exception as exc:
+                fails.append("%s: %s manifest edited and written again: %s: %s" % (what, name, type(exc).__name__, exc))
+                continue
+            rec = [r for r in recs if r["path"] == img.path][0]
+            if (rec["mtime"], rec["bootable"], rec["checksums"]) != (img.mtime, img.bootable, img.checksums):
+                fails.append("%s: %s manifest edited (mtime, bootable, checksums of %s) and written again still shows the old values: %s"
+                             % (what, name, img.path, {k: rec[k] for k in ("mtime", "bootable", "checksums")}))
     return fails[:6]
 
 
